@@ -91,14 +91,21 @@ impl<'a> JsonbView<'a> {
         4 + self.entry_count() * 4
     }
 
-    fn read_entry(&self, idx: usize) -> u32 {
+    fn read_entry(&self, idx: usize) -> Result<u32> {
         let offset = self.entries_start() + idx * 4;
-        u32::from_le_bytes([
-            self.0[offset],
-            self.0[offset + 1],
-            self.0[offset + 2],
-            self.0[offset + 3],
-        ])
+        let b = self
+            .0
+            .get(offset..offset + 4)
+            .ok_or_else(|| eyre::eyre!("corrupt jsonb: entry {} lies outside the buffer", idx))?;
+        Ok(u32::from_le_bytes([b[0], b[1], b[2], b[3]]))
+    }
+
+    /// `len` bytes at `offset` of the data section (the bytes after the entry table), bounds-checked.
+    fn section(&self, offset: usize, len: usize) -> Result<&'a [u8]> {
+        let start = self.data_start().checked_add(offset);
+        start
+            .and_then(|s| s.checked_add(len).and_then(|e| self.0.get(s..e)))
+            .ok_or_else(|| eyre::eyre!("corrupt jsonb: {} bytes at offset {} lie outside the buffer", len, offset))
     }
 
     fn entry_is_key(entry: u32) -> bool {
@@ -119,7 +126,7 @@ impl<'a> JsonbView<'a> {
     }
 
     fn read_key_at(&self, pair_idx: usize) -> Result<&'a str> {
-        let key_entry = self.read_entry(pair_idx * 2);
+        let key_entry = self.read_entry(pair_idx * 2)?;
         ensure!(
             Self::entry_is_key(key_entry),
             "expected key entry at index {}",
@@ -127,19 +134,18 @@ impl<'a> JsonbView<'a> {
         );
 
         let offset = Self::entry_offset(key_entry);
-        let data_section = &self.0[self.data_start()..];
-
-        let len_bytes: [u8; 2] = data_section[offset..offset + 2]
+        let len_bytes: [u8; 2] = self
+            .section(offset, 2)?
             .try_into()
             .map_err(|_| eyre::eyre!("key length read failed"))?;
         let len = u16::from_le_bytes(len_bytes) as usize;
 
-        let key_bytes = &data_section[offset + 2..offset + 2 + len];
+        let key_bytes = self.section(offset + 2, len)?;
         std::str::from_utf8(key_bytes).map_err(|e| eyre::eyre!("invalid UTF-8 in jsonb key: {}", e))
     }
 
     fn read_value_at(&self, pair_idx: usize) -> Result<JsonbValue<'a>> {
-        let value_entry = self.read_entry(pair_idx * 2 + 1);
+        let value_entry = self.read_entry(pair_idx * 2 + 1)?;
         self.decode_entry(value_entry)
     }
 
@@ -151,30 +157,30 @@ impl<'a> JsonbView<'a> {
             JSONB_TYPE_NULL => Ok(JsonbValue::Null),
             JSONB_TYPE_BOOL => Ok(JsonbValue::Bool(offset != 0)),
             JSONB_TYPE_NUMBER => {
-                let data_section = &self.0[self.data_start()..];
-                let bytes: [u8; 8] = data_section[offset..offset + 8]
+                let bytes: [u8; 8] = self
+                    .section(offset, 8)?
                     .try_into()
                     .map_err(|_| eyre::eyre!("number read failed"))?;
                 Ok(JsonbValue::Number(f64::from_le_bytes(bytes)))
             }
             JSONB_TYPE_STRING => {
-                let data_section = &self.0[self.data_start()..];
-                let len_bytes: [u8; 2] = data_section[offset..offset + 2]
+                let len_bytes: [u8; 2] = self
+                    .section(offset, 2)?
                     .try_into()
                     .map_err(|_| eyre::eyre!("string length read failed"))?;
                 let len = u16::from_le_bytes(len_bytes) as usize;
-                let str_bytes = &data_section[offset + 2..offset + 2 + len];
+                let str_bytes = self.section(offset + 2, len)?;
                 let s = std::str::from_utf8(str_bytes)
                     .map_err(|e| eyre::eyre!("invalid UTF-8 in jsonb string: {}", e))?;
                 Ok(JsonbValue::String(s))
             }
             JSONB_TYPE_ARRAY | JSONB_TYPE_OBJECT => {
-                let data_section = &self.0[self.data_start()..];
-                let len_bytes: [u8; 4] = data_section[offset..offset + 4]
+                let len_bytes: [u8; 4] = self
+                    .section(offset, 4)?
                     .try_into()
                     .map_err(|_| eyre::eyre!("nested length read failed"))?;
                 let len = u32::from_le_bytes(len_bytes) as usize;
-                let nested_data = &data_section[offset + 4..offset + 4 + len];
+                let nested_data = self.section(offset + 4, len)?;
                 let nested_view = JsonbView::new(nested_data)?;
                 if typ == JSONB_TYPE_ARRAY {
                     Ok(JsonbValue::Array(nested_view))
@@ -239,14 +245,20 @@ impl<'a> JsonbView<'a> {
                 Ok(JsonbValue::Bool(val))
             }
             JSONB_TYPE_NUMBER => {
-                let bytes: [u8; 8] = self.0[4..12]
+                let bytes: [u8; 8] = self
+                    .0
+                    .get(4..12)
+                    .ok_or_else(|| eyre::eyre!("corrupt jsonb: scalar number is truncated"))?
                     .try_into()
                     .map_err(|_| eyre::eyre!("scalar number read failed"))?;
                 Ok(JsonbValue::Number(f64::from_le_bytes(bytes)))
             }
             JSONB_TYPE_STRING => {
                 let len = self.entry_count();
-                let str_bytes = &self.0[4..4 + len];
+                let str_bytes = self
+                    .0
+                    .get(4..4 + len)
+                    .ok_or_else(|| eyre::eyre!("corrupt jsonb: scalar string is truncated"))?;
                 let s = std::str::from_utf8(str_bytes)
                     .map_err(|e| eyre::eyre!("invalid UTF-8 in jsonb scalar string: {}", e))?;
                 Ok(JsonbValue::String(s))
@@ -269,7 +281,7 @@ impl<'a> JsonbView<'a> {
         if idx >= self.entry_count() {
             return Ok(None);
         }
-        let entry = self.read_entry(idx);
+        let entry = self.read_entry(idx)?;
         self.decode_entry(entry).map(Some)
     }
 
@@ -380,7 +392,7 @@ impl<'a> Iterator for ArrayIter<'a> {
         }
         let entry = self.view.read_entry(self.idx);
         self.idx += 1;
-        Some(self.view.decode_entry(entry))
+        Some(entry.and_then(|e| self.view.decode_entry(e)))
     }
 }
 
